@@ -122,6 +122,7 @@ def combined(levels):
         own = _clone(own)
         if comb is not None:
             par = remove_extensions(_clone(comb), False)
+            own = remove_extensions(own, True)      # of the own constraints only the last one keeps its marker
             par[1].extend(own[1])       # own is always ACT_CA_SET
             comb = par
         else:
@@ -190,6 +191,15 @@ class ISet:
     def empty(self): return not (self.lo or self.hi or self.mem)
     def key(self): return (self.lo, tuple(sorted(self.mem)), self.hi)
     def __contains__(self, x): return x in self.mem
+    def has(self, x):
+        """membership of an arbitrary integer: constant between consecutive sample points (every literal l
+        comes with l-1 and l+1, so a gap starts at some l+1 and contains no literal)"""
+        if x in self.mem: return True
+        if not self.pts or x < self.pts[0]: return self.lo
+        if x > self.pts[-1]: return self.hi
+        import bisect
+        i = bisect.bisect_right(self.pts, x) - 1
+        return self.pts[i] != x and self.pts[i] in self.mem
     def inter(a, b): return ISet(a.pts, a.lo and b.lo, a.mem & b.mem, a.hi and b.hi)
     def union(a, b): return ISet(a.pts, a.lo or b.lo, a.mem | b.mem, a.hi or b.hi)
     def minus(a, b): return ISet(a.pts, a.lo and not b.lo, a.mem - b.mem, a.hi and not b.hi)
@@ -247,6 +257,8 @@ class Oracle:
     follows (X.691 9.3.19 / X.696 8.2.6)."""
     def __init__(self, pts, visible):
         self.pts, self.visible = pts, visible
+        self.adds = False                # count the extension additions in (the "practical" set: what the
+                                         # generated validity checker accepts; never PER-/OER-visible)
         self.degenerate = False          # some sub-expression is empty
         self.illegal = False             # a value outside the parent in a serial position (X.680 G.4.2.3)
     def full(self): return ISet(self.pts, True, frozenset(self.pts), True)
@@ -287,7 +299,12 @@ class Oracle:
         if r.empty(): self.degenerate = True
         return r
     def spec_root(self, parent, s, cp):
-        return self.e(parent, s[1], cp)
+        r = self.e(parent, s[1], cp)
+        if self.adds and s[2] and s[3] is not None:
+            deg = self.degenerate
+            r = r.union(self.e(parent, s[3], cp))
+            self.degenerate = deg
+        return r
 
 def _spec_is_ext(s):
     """extensible iff the spec carries a marker, or is a single SIZE(...) carrying one"""
@@ -315,7 +332,7 @@ def _inner_ext(e):
 
 class Eff:
     """the oracle's verdict for one type"""
-    __slots__ = ("root", "vis", "ext", "oer_vis", "degenerate", "illegal", "has_additions",
+    __slots__ = ("root", "vis", "prac", "last_parent", "ext", "oer_vis", "degenerate", "illegal", "has_additions",
                  "nested_ext", "has_except", "multi_own_ext")
 
 def evaluate(kind, levels):
@@ -335,14 +352,24 @@ def evaluate(kind, levels):
         o = Oracle(pts, visible)
         cur = o.full() if kind == 'int' else o.nat()
         for n, s in enumerate(flat):
+            if name == "root" and n == len(flat) - 1: ev.last_parent = cur
             cur = o.spec_root(cur, s, n > 0 or kind == 'size')
             if cur.empty(): o.degenerate = True
+        if name == "root" and not flat: ev.last_parent = cur
         res[name] = cur
         if name == "root":
             ev.degenerate = o.degenerate; ev.illegal = o.illegal
         else:
             ev.degenerate = ev.degenerate or o.degenerate
     ev.root, ev.vis = res["root"], res["vis"]
+    # "practical" constraints (asn1c's validity checker): the PER-visible root plus the extension additions
+    # of the last serially applied constraint (the pull-up strips the others)
+    o = Oracle(pts, True)
+    cur = o.full() if kind == 'int' else o.nat()
+    for n, s in enumerate(flat):
+        o.adds = n == len(flat) - 1
+        cur = o.spec_root(cur, s, n > 0 or kind == 'size')
+    ev.prac = cur
     ev.ext = bool(flat) and _spec_is_ext(flat[-1])
     # OER: drop the extensible specs of the chain
     o = Oracle(pts, True)
